@@ -20,7 +20,9 @@ var (
 	SSlice = &Sort{"Slice"}
 	SStr   = &Sort{"Str"}
 	SXReal = &Sort{"XReal"}
-	sorts  = map[string]*Sort{"Int": SInt, "Bool": SBool, "Real": SReal, "Slice": SSlice, "Str": SStr, "XReal": SXReal}
+	// complex128: an opaque value; only its real part is observable (builtin real -> cplx_re)
+	SCplx = &Sort{"Cplx"}
+	sorts = map[string]*Sort{"Int": SInt, "Bool": SBool, "Real": SReal, "Slice": SSlice, "Str": SStr, "XReal": SXReal, "Cplx": SCplx}
 )
 
 func mkSort(name string) *Sort {
